@@ -1,7 +1,8 @@
-(* FacadeDec.v — executable model of what ECCMan.decode (lib/eccman.py) does AROUND the third-party decoder for
-   codecs 1 and 2 (unireedsolomon): erasure positions, left/right padding, the call of the decoder on the padded word,
-   the capacity check added by fix e31d8d3 (2*errors + erasures <= n-k, errors counted over message AND parity outside
-   the erased positions), stripping of the pad, left-justification of the returned parity.  The decoder itself is the
+(* FacadeDec.v — executable model of what ECCMan.decode (lib/eccman.py) does AROUND the third-party decoder, for all four
+   codecs since fix 90b3a68 (before it: codecs 1 and 2 only, whence the name fac_decode12): erasure positions, left/right
+   padding, the call of the decoder on the padded word, the capacity check added by fix e31d8d3 and extended to reedsolo by
+   90b3a68 (2*errors + erasures <= n-k, errors counted over message AND parity outside the erased positions), stripping of
+   the pad, left-justification of the returned parity.  The decoder itself is the
    parameter `inner` (padded word, erasure positions) -> answer | refusal.  Model only. *)
 From Coq Require Import List Arith Bool NArith.
 From Coq Require Import Strings.Byte.
